@@ -94,5 +94,6 @@ def check_history_independence(ctx, module_names: typing.Iterable[str], rule_ali
     ctx.unit(ctx.ix.modules[n])
   a = shape.check_no_global_mutation(ctx, fs, rule=rule_alias, allowed=GLOBAL_CONTAINERS_OK)
   b = shape.check_no_process_state(ctx, fs, rule=rule_global, allowed=PROCESS_STATE_OK)
+  b += shape.check_no_memo_decorators(ctx, fs, rule=rule_global)
   ctx.ok(rule_global, f"{len(names)} modules|no process-global state is written", "src/main/python/ttconv", f"{len(fs)} functions scanned; {a + b} tabled exceptions")
   return len(fs)
